@@ -1,14 +1,14 @@
-\* witness wanted (coarse schedule, replayable): ViewConsistent fails for the code as it is
+\* behaviours that reach rarely taken decision branches (GoalCover in MCDiscovery.tla)
 SPECIFICATION SpecB
 CONSTANTS
-  Peers = {"p1", "p2"}
+  Peers = {"p1", "p2", "p3"}
   Self = "self"
-  Limit = 1
-  Workers = {"w1"}
+  Limit = 2
+  Workers = {"w1", "w2"}
   Callers = {}
   Delay = 1
-  MaxRounds = 1
-  MaxDrops = 1
+  MaxRounds = 2
+  MaxDrops = 0
   MaxInbound = 0
   MaxFail = 0
   MaxCalls = 0
@@ -19,8 +19,8 @@ CONSTANTS
   Serialized = FALSE
   DirectAPI = FALSE
   MaxLen = 200
-  Wanted = {}
+  Wanted = {"full", "overshootround", "inset"}
 CHECK_DEADLOCK FALSE
 VIEW state
 ACTION_CONSTRAINT CoarseSchedule
-INVARIANTS ViewConsistent
+INVARIANTS GoalCover
